@@ -551,6 +551,7 @@ func vhRoutes(t *vhToks) string {
 // Hooks for the storage-backed probe (verif_http_e2e_probe_test.go).  It has to live in the external test package
 // httpserver_test: the storage package imports httpserver, so an in-package test file cannot import storage.
 var VerifE2E func(fields []string) string
+var VerifFile func(fields []string) string
 
 func VerifServe(hc *Coordinator, method, rawpath string) (*httptest.ResponseRecorder, bool, bool) {
 	return vhServe(hc, method, rawpath, "")
@@ -570,6 +571,11 @@ func vhRunLine(line string) (res string) {
 		return vhLeak(t)
 	case "routes":
 		return vhRoutes(t)
+	case "filecfg":
+		if VerifFile == nil {
+			return "PROBE-ERROR filecfg hook not registered"
+		}
+		return VerifFile(t.f[t.i:])
 	case "e2e":
 		if VerifE2E == nil {
 			return "PROBE-ERROR e2e hook not registered"
